@@ -21,6 +21,9 @@
                         frame; neither → one fresh map.  In all three no frame of the caller above its
                         entry frame is reachable from the callee.
   * `exec_refines_lexical_partial` — see Props/C02Spec.lean (refinement to Spec.render).
+
+  Bodies containing a {template} tag are outside the model (Model/Eval.lean header): `execCmd` answers
+  `error` there, the theorems hold vacuously.
 -/
 import SoyVerif.Lemmas.EvalGood
 
